@@ -18,6 +18,8 @@ abbrev Tok := Nat
 abbrev Bond := Nat × Nat × Nat
 
 def unmodelled : Err := .other "unmodelled"
+/-- the real code performs an unchecked out-of-range read here (undefined behaviour) -/
+def ub : Err := .other "ub"
 
 /-! ## One axis of numpy indexing -/
 
@@ -122,6 +124,9 @@ inductive Val where
 
 def mandatory : List String := ["chain_id", "res_id", "ins_code", "res_name", "hetero", "atom_name", "element"]
 
+/-- apply `f` to every value of a dict -/
+def mapVals (f : α → β) (d : List (String × α)) : List (String × β) := d.map (fun p => (p.1, f p.2))
+
 def pick (xs : List Tok) (sel : List Nat) : List Tok := sel.map (fun i => xs.getD i 0)
 
 def lookup (k : String) : List (String × α) → Option α
@@ -172,13 +177,17 @@ def bondsIndexErr (ix : Index) (sel : List Nat) : Option Err :=
   | .mask _ .nd => none
   | _ => if hasDup sel then some .notImplemented else none
 
-/-- `BondList.__getitem__` reads `mask_v[atom]` without bounds check: a size-0 ndarray mask on a container
-with bonds is undefined behaviour (known finding); the model says nothing. -/
-def bondsMaskUB (a : Bonds) (ix : Index) : Bool :=
+/-- `BondList.__getitem__` reads `mask_v[atom]` for every bond without bounds check: a size-0 ndarray mask
+(which numpy accepts on any axis) on a bond list with at least one bond is an out-of-range read. -/
+def bondsMaskUB (bs : List Bond) (ix : Index) : Bool :=
   match ix with
-  | .mask [] .nd => !a.bs.isEmpty
-  | .mask [] .strided => !a.bs.isEmpty
+  | .mask [] .nd => !bs.isEmpty
+  | .mask [] .strided => !bs.isEmpty
   | _ => false
+
+/-- the error (if any) of `self._bonds[index]` -/
+def bondsErr (bs : List Bond) (ix : Index) (sel : List Nat) : Option Err :=
+  if bondsMaskUB bs ix then some ub else bondsIndexErr ix sel
 
 /-- `_subarray(index)`: one-dimensional index over the atom axis -/
 def subarray (a : Arr) (ix : Index) : Except Err Arr :=
@@ -186,9 +195,7 @@ def subarray (a : Arr) (ix : Index) : Except Err Arr :=
   else match resolve a.n ix with
   | .error e => .error e
   | .ok sel =>
-    match (match a.bonds with
-           | none => none
-           | some b => if bondsMaskUB b ix then some unmodelled else bondsIndexErr ix sel) with
+    match (match a.bonds with | none => none | some b => bondsErr b.bs ix sel) with
     | some e => .error e
     | none => .ok { a with n := sel.length
                            annot := a.annot.map (fun p => (p.1, pick p.2 sel))
@@ -259,11 +266,13 @@ def setElement (a : Arr) (ix : Index) (v : AtomV) : Except Err Arr :=
     .ok { a with annot := a.annot.map (fun p => (p.1, setAt p.2 sel ((lookup p.1 v.annot).getD 0)))
                  coord := a.coord.map (fun c => setAt c sel v.coord) }
 
-def sortedKeys (d : List (String × α)) : List String :=
+def sortNames : List String → List String :=
   let rec ins (k : String) : List String → List String
     | [] => [k]
     | x :: r => if k < x then k :: x :: r else x :: ins k r
-  d.foldr (fun p acc => ins p.1 acc) []
+  fun l => l.foldr ins []
+
+def sortedKeys (d : List (String × α)) : List String := sortNames (d.map (·.1))
 
 /-- `equal_annotations` -/
 def equalAnnot (a b : List (String × List Tok)) : Bool :=
@@ -289,9 +298,9 @@ def setModel (a : Arr) (ix : Index) (v : Val) : Except Err Arr :=
   match v with
   | .arr x =>
     if x.stack then .error unmodelled
+    else if x.n != a.n then .error .valueError            -- unequal annotations / shapes do not broadcast
     else if !equalAnnot a.annot x.annot then .error .valueError
     else if !equalBonds a.bonds x.bonds then .error .valueError
-    else if x.n != a.n then .error .valueError            -- numpy: shapes do not broadcast
     else match ix with
       | .int i =>
         match normInt a.coord.length i with
@@ -385,8 +394,8 @@ def stackArrays (xs : List Arr) : Except Err Arr :=
   | [] => .error (.other "AttributeError")
   | f :: _ =>
     if xs.any (·.stack) then .error unmodelled
+    else if !(xs.all (fun a => a.n == f.n)) then .error .valueError      -- unequal annotations / shapes differ
     else if !(xs.all (fun a => equalAnnot a.annot f.annot)) then .error .valueError
-    else if !(xs.all (fun a => a.n == f.n)) then .error .valueError      -- np.stack: shapes differ
     else .ok { stack := true, n := f.n, annot := f.annot
                coord := xs.map (fun a => a.coord.getD 0 [])
                box := if xs.all (·.box.isSome) then some (xs.map (fun a => (a.box.getD []).getD 0 0)) else none
@@ -484,7 +493,8 @@ def mkAtom (cols : List (String × Tok)) (c : Tok) : AtomV :=
 
 /-- `==` of two containers -/
 def equalArr (a b : Arr) : Bool :=
-  a.stack == b.stack && equalAnnot a.annot b.annot && equalBonds a.bonds b.bonds && a.box == b.box && a.coord == b.coord
+  a.stack == b.stack && a.n == b.n && equalAnnot a.annot b.annot && equalBonds a.bonds b.bonds && a.box == b.box
+    && a.coord == b.coord
 
 /-! ## The register machine driven by the protocol -/
 
